@@ -427,15 +427,27 @@ func (e *specEval) star(k *Obj, st sstate) []sres {
 	s.nloop++
 	tag := fmt.Sprintf("%d", s.nloop)
 	s.hist = append(s.hist, fmt.Sprintf("loop(%s)from(%s,%s)", tag, st.pos, st.tok))
-	s.pos, s.tok = "I"+tag+"("+st.pos+")", "J"+tag+"("+st.tok+")"
 	var out []sres
 	for _, r := range e.eval(k, s) {
-		if r.ok {
-			continue // another iteration: covered by the invariant
+		if !r.ok {
+			// zero iterations: the repetition ends where it started
+			c := r.st.clone()
+			c.pos, c.tok = st.pos, st.tok
+			out = append(out, sres{true, c})
+			continue
 		}
-		c := r.st.clone()
-		c.pos, c.tok = s.pos, s.tok
-		out = append(out, sres{true, c})
+		// at least one iteration: the invariant state
+		s2 := r.st.clone()
+		s2.hist = append(s2.hist, fmt.Sprintf("loop(%s)+", tag))
+		s2.pos, s2.tok = "I"+tag+"("+st.pos+")", "J"+tag+"("+st.tok+")"
+		for _, r2 := range e.eval(k, s2) {
+			if r2.ok {
+				continue // another iteration: covered by the invariant
+			}
+			c := r2.st.clone()
+			c.pos, c.tok = s2.pos, s2.tok
+			out = append(out, sres{true, c})
+		}
 	}
 	return out
 }
